@@ -272,3 +272,37 @@ Theorem removing_dead_parts_keeps_references_resolved : forall ts ign entries pr
       forall t j, declares g t j (zs x) -> live g (IPart t j) /\ live g (IFile t)).
 Proof. exact references_resolve. Qed.
 Print Assumptions removing_dead_parts_keeps_references_resolved.
+
+(* ---- dependencies beyond a part's own symbol uses ---- *)
+(* Re-export chains (model): after linking the import bindings (linker step 6:
+   ImportsToBind x LocalPartsWithUses), a live part that uses an import keeps
+   alive every `export {x} from` / `export *` statement the resolution passed
+   through (importData.ReExports) and every part declaring the imported symbol
+   in the file it resolves to. *)
+Theorem import_bindings_keep_chain_live : forall g bs b i p d,
+  let g' := add_bindings g bs in
+  In b bs -> In i (b_users b) ->
+  live g' (IPart (b_file b) i) -> get_part g' (b_file b) i = Some p ->
+  In d (binding_deps g b) -> live g' (IPart (fst d) (snd d)).
+Proof. exact import_bindings_closed. Qed.
+Print Assumptions import_bindings_keep_chain_live.
+
+(* ... and the same for the REAL Dependencies of every dumped graph that passes
+   the check run by the harness (Harness.graph_ok evaluates bindings_ok on the
+   ImportsToBind table copied by the hook) *)
+Theorem dumped_bindings_keep_chain_live : forall g bs b i d,
+  bindings_ok g bs = true -> In b bs -> In i (b_users b) ->
+  live g (IPart (b_file b) i) -> In d (binding_deps g b) -> live g (IPart (fst d) (snd d)).
+Proof. exact bindings_ok_closed. Qed.
+Print Assumptions dumped_bindings_keep_chain_live.
+
+(* Runtime helpers and wrappers: GenerateSymbolImportAndUse records the helper
+   (__toESM, __commonJS, __esm, ...), the wrapper symbol of a wrapped file or its
+   exports object as a symbol USE of the part, so the part of the runtime / of
+   the wrapped file (its wrapper part) that declares the symbol stays live with
+   the user; on dumps this is part of deps_cover_uses_b. *)
+Theorem generated_uses_keep_declaring_parts_live : forall g s i p u t j,
+  deps_cover_uses g -> live g (IPart s i) -> get_part g s i = Some p -> In u (p_uses p) ->
+  declares g t j u -> live g (IPart t j).
+Proof. exact generated_uses_closed. Qed.
+Print Assumptions generated_uses_keep_declaring_parts_live.
